@@ -22,6 +22,7 @@ async def one(m, m_as_label, roe, nror, outcomes):
     if m_as_label: labels['max_retries'] = m
     if roe in ('true', 'false'): labels['retry_on_error'] = roe == 'true'
     if roe in ('str_true', 'str_false'): labels['retry_on_error'] = 'True' if roe == 'str_true' else 'False'
+    if roe in ('str_lower_true', 'str_upper_true', 'str_other'): labels['retry_on_error'] = {'str_lower_true': 'true', 'str_upper_true': 'TRUE', 'str_other': 'yes'}[roe]          # any spelling of 'true' enables, any other text disables
     async def t(x, ctx_labels=None):
         i = len(runs); o = outcomes[i] if i < len(outcomes) else 'ok'
         runs.append(o)
@@ -50,10 +51,10 @@ def run(sc):
     fails = []; n = 0
     for m in range(0, 7):
         for m_as_label in (True, False):
-            for roe in ('true', 'false', 'str_true', 'str_false', 'default_true', 'default_false'):
+            for roe in ('true', 'false', 'str_true', 'str_false', 'str_lower_true', 'str_upper_true', 'str_other', 'default_true', 'default_false'):
                 for nror in (True, False):
                     for outcomes in (['fail'] * 8, ['fail', 'ok'], ['ok'], ['fail', 'fail', 'noresult'], ['noresult'], ['fail', 'fail', 'fail', 'ok']):
-                        enabled = roe in ('true', 'str_true', 'default_true')
+                        enabled = roe in ('true', 'str_true', 'str_lower_true', 'str_upper_true', 'default_true')
                         runs, stored, seen = asyncio.run(one(m, m_as_label, roe, nror, outcomes)); n += 1
                         want_n, last = expected(m, enabled, outcomes)
                         pr = []
